@@ -71,7 +71,7 @@ def complex_guard(ctx):
     for cls, fshape in CLASSES:
         for method in ('complex', 'multicomplex'):
             for what in ('complex x', 'complex valued f', 'both'):
-                for history in ('fresh object', 'after a legal call'):
+                for history in ('fresh object', 'after a legal call', 'built as central, method set afterwards'):
                     guard_case(ctx, core, cls, fshape, method, what, history)
 
 
@@ -103,7 +103,12 @@ def guard_case(ctx, core, cls, fshape, method, what, history):
                 if state['kind'] == 'z' and not hasattr(r, 'cls'):
                     r = ndarr.ew1(lambda v: DV(v.tags, 'z'), r) if isinstance(r, Arr) else DV(r.tags, 'z')
                 return r
-        d = C(f, method=method)
+        if history == 'built as central, method set afterwards':
+            d = C(f, method='central')
+            d(s.x_array((n,), 'f'))
+            I.setattr(d, 'method', method)
+        else:
+            d = C(f, method=method)
         if history == 'after a legal call':
             d(s.x_array((n,), 'f'))
         state['kind'] = fk
@@ -161,6 +166,24 @@ def misuse(ctx):
             return P.interp.getattr(obj, '_derivative')(x, (), {})
         expect_value_error(rep, 'R-MISUSE', 'finite_difference.LogRule._apply', fd.relpath,
                            'Derivative(%s, n=%d, order=%d) with %d steps' % (method, n, order, steps), thunk, 'too few steps')
+    # too few steps with an array x (the guard must count steps, not table cells)
+    for cls, xshape, fshape, steps in (('Derivative', (3,), None, 1), ('Gradient', (3,), (), 1), ('Hessdiag', (2,), (), 1),
+                                       ('Jacobian', (2,), (2,), 1)):
+        def body(s, cls=cls, xshape=xshape, fshape=fshape, steps=steps):
+            from ..dvrun import StepGenModel
+            I = s.interp
+            C = I.get_global('core', cls)
+            nn = 1
+            for d_ in xshape:
+                nn *= d_
+            f = s.elementwise_f() if fshape is None else tensor_f(s, nn, fshape)
+            d = C(f, method='forward', step=StepGenModel(num_steps=steps))
+            return d(s.x_array(xshape))
+        exr = explore(repo, body, pinned={'(np.abs(step) > 0).all()': True})
+        bad = [(exc.exc_name if exc else 'returned a result') for d, r, exc in exr.paths if exc is None or exc.exc_name != 'ValueError']
+        rep.check(not bad, 'R-MISUSE', 'finite_difference.LogRule._apply', fd.relpath, {'paths': len(exr.paths), 'outcomes': bad[:3]},
+                  'ValueError: fewer steps than the rule needs', '%s forward with %d step, x.shape=%s' % (cls, steps, xshape),
+                  key='too few steps (array x)')
     # function that does not return one value per element
     for cls, bad_size in (('Derivative', 2), ('Derivative', 4), ('Hessdiag', 3)):
         def body(s, cls=cls, bad_size=bad_size):
